@@ -179,8 +179,40 @@ def guisibling_rule(P, R):
                         % (SH.first_difference(a, b),), file=f["file"], line=x[1], function=f["q"])
 
 
+def let_rule(P, R):
+    """LET / assignment to an array element: findvar() hands an element back by re-pointing the variable record's value
+    pointer, and evaluating the right-hand side may call findvar() on the same array again.  cmdlet therefore saves the
+    target element first and re-installs it AFTER the right-hand side has been evaluated (numeric and string branch alike);
+    re-installing it before the evaluation stores the value into whichever element the right-hand side read last."""
+    R.rule("C17.let", "cmdlet re-installs the saved target element after evaluating the right-hand side (numeric and string)", minimum=2)
+    f = P.one("PBasic::cmdlet")
+    where = dict(file=f["file"], function=f["q"])
+    order = []
+    for st in T.walk(f["body"]):
+        if st[0] == "Bin" and st[2] == "=":
+            r = T.strip_casts(st[4])
+            l = T.text(st[3]).replace(" ", "")
+            if r[0] == "Ref" and r[3] in ("target", "starget") and (l.endswith(".val") or l.endswith(".sval")):
+                order.append(("restore", r[3], st[1]))
+            if r[0] == "Call" and T.callee_name(r) in ("realexpr", "strexpr"):
+                order.append(("eval", T.callee_name(r), st[1]))
+    pairs = (("realexpr", "target", "numeric"), ("strexpr", "starget", "string"))
+    for ev, tg, nm in pairs:
+        e = [o for o in order if o[0] == "eval" and o[1] == ev]
+        r = [o for o in order if o[0] == "restore" and o[1] == tg]
+        if not e or not r:
+            R.anchor_missing("C17.let", "cmdlet: %s evaluation / restore of `%s` not found" % (nm, tg))
+            continue
+        if max(x[2] for x in e) < min(x[2] for x in r):
+            R.ok("C17.let", nm, "%s() at line %d, target re-installed at line %d" % (ev, e[0][2], r[0][2]))
+        else:
+            R.violation("C17.let", nm, "the saved target element is re-installed (line %d) before the right-hand side is evaluated (line %d): `a(3) = a(1) + a(2)` stores into the element "
+                        "the right-hand side read last" % (r[0][2], e[0][2]), line=r[0][2], **where)
+
+
 def run(P, R, tier):
     guisibling_rule(P, R)
+    let_rule(P, R)
     R.undecided += ["(e) arithmetic and string results for all programs", "(f) malformed programs produce a BASIC error, never a wrong value or a hang"]
     ens = [e for e in P.enums.values() if e["q"].endswith("BASIC_TOKEN")]
     if len(ens) != 1:
